@@ -165,3 +165,11 @@ plan("C19", "exploration",
      "undersized with grow-and-resume, corrupted HCRC/FCHECK/CM; arbitrary bytes on guard-paged buffers. Non-trivial: >= 2 optional fields, split inside the header, or overflow-resume.",
      lambda tier: [S("C19", 40000 if tier == "quick" else 2000000)],
      assumptions=["name and comment passed to the writer are NUL-terminated inside their buffers", "resume after overflow follows the in-tree protocol: grow the buffer keeping its contents, call again"])
+
+plan("C18", "exploration",
+     "Generated histograms (all-zero, single symbol, sparse, uniform, powers of two, Fibonacci-like beyond the depth limit, random with random scale, full 44-bit range, collected from data by "
+     "isal_update_histogram_{base,01,04} and the dispatcher) through both builders: Kraft-complete codes <= 15 bits, bit-buffer bound, stored header re-parsed by the reference decoder; level-0 compression "
+     "round trips with the table (any data / data from the support) under all APIs and flush modes; set_hufftables refused mid-block. Thorough adds the LONGER_HUFFTABLE build. Non-trivial: depth-limited "
+     "or tiny-support histogram, or a round trip with a match.",
+     lambda tier: [S("C18", 30000)] if tier == "quick" else [S("C18", 1200000), S("C18", 200000, cfg="longhuff")],
+     assumptions=["subset builder: only byte values with a non-zero literal count are compressed", "collected histograms are used as inputs; their exact counts are not prescribed (collectors use different match finders)"])
